@@ -995,6 +995,20 @@ fn main_check(ctx: &Ctx) -> Outcome {
         let total = sweep(&values, 1, "values", false);
         out.push_part(json!({"sweep":"value sweep (all 256 indices x 3 roles x 2 spellings, RGB components, plain codes)","tokens":values.len(),"max_tokens":1,"token_strings":total,"configurations":cfgs.len()}));
     }
+    // every ASCII character (controls included) between two letters, unstyled and inside styled text: a byte the
+    // converter or the adapter singles out does not depend on being in the token alphabets
+    {
+        let mut toks: Vec<Tok> = vec![];
+        for c in 0u8..0x80 {
+            for (pl, prefix) in [("", &b""[..]), ("CSI1;31;44m", b"\x1b[1;31;44m")] {
+                let mut bytes = prefix.to_vec();
+                bytes.extend([b'a', c, b'b', b'\n', c, b'c']);
+                toks.push(Tok { label: format!("{pl}a<0x{c:02x}>b LF <0x{c:02x}>c"), bytes, text: true });
+            }
+        }
+        let total = sweep(&toks, 1, "ascii", false);
+        out.push_part(json!({"sweep":"every ASCII character mid-line and at line start, unstyled and styled","tokens":toks.len(),"max_tokens":1,"token_strings":total,"configurations":cfgs.len()}));
+    }
     // every sequence made of two attribute groups (e.g. two truecolor groups in one sequence), followed by a character
     if multi_any {
         let groups = vchecks::wincon_sys::sgr_groups();
